@@ -350,7 +350,16 @@ func (d *DataChannel) handleOpen(dc *datachannel.DataChannel, isRemote, isAlread
 	onBufferedAmountLow := d.onBufferedAmountLow
 	d.mu.Unlock()
 	verifYield("dc.handleOpen.unlocked", d)
-	d.setReadyState(DataChannelStateOpen)
+	if !d.setReadyState(DataChannelStateOpen) {
+		// closed while it was being opened: same as having been closed during the connecting state
+		verifYield("dc.handleOpen.stored", d)
+		if err := dc.Close(); err != nil {
+			d.log.Errorf("Failed to close DataChannel that was closed during connecting state %v", err.Error())
+		}
+		d.onClose()
+
+		return
+	}
 	verifYield("dc.handleOpen.stored", d)
 
 	// Fire the OnOpen handler immediately not using pion/datachannel
@@ -775,7 +784,28 @@ func (d *DataChannel) collectStats(collector *statsReportCollector) {
 	collector.Collect(stats.ID, stats)
 }
 
-func (d *DataChannel) setReadyState(r DataChannelState) {
-	d.readyState.Store(r)
-	verifEvent("dc.state", d, r)
+// setReadyState moves the ready state forward along
+// connecting -> open -> closing -> closed. It reports whether the channel is in
+// state r afterwards; a transition backwards is not made (for instance open
+// after the channel has been closed in the meantime).
+func (d *DataChannel) setReadyState(r DataChannelState) bool {
+	for {
+		current := d.readyState.Load()
+		if cur, ok := current.(DataChannelState); ok {
+			if cur == r {
+				return true
+			}
+			if cur > r {
+				return false
+			}
+			if !d.readyState.CompareAndSwap(current, r) {
+				continue
+			}
+		} else {
+			d.readyState.Store(r)
+		}
+		verifEvent("dc.state", d, r)
+
+		return true
+	}
 }
